@@ -84,7 +84,11 @@ impl Matcher {
 
         let thread_matcher = thread::spawn(move || {
             let num_taken = item_pool.num_taken();
+            #[cfg(feature = "verif")]
+            crate::verif::point("m.load", num_taken, 0);
             let items = item_pool.take();
+            #[cfg(feature = "verif")]
+            crate::verif::point("m.take", items.len(), item_pool.len());
 
             // 1. use rayon for parallel
             // 2. return Err to skip iteration
@@ -118,8 +122,14 @@ impl Matcher {
                 trace!("matcher stop, total matched: {}", pool.len());
             }
 
+            #[cfg(feature = "verif")]
+            crate::verif::point("m.publish", matched_items.lock().len(), 0);
             callback(matched_items.clone());
+            #[cfg(feature = "verif")]
+            crate::verif::point("m.notify", 0, 0);
             stopped.store(true, Ordering::Relaxed);
+            #[cfg(feature = "verif")]
+            crate::verif::point("m.stop", 0, 0);
         });
 
         MatcherControl {
